@@ -1,6 +1,8 @@
 """C01 - operations never silently mix coordinate reference systems.
 
-E1: complete products  operation x operand kinds x operand CRS tags  executed on the real code.
+E1: complete products  operation x operand kinds x operand CRS tags  executed on the real code; for the stream
+operations additionally x operand COUNT (every length of a contiguous range, the odd operand anywhere), for the GeoBox
+operations x relative ORIENTATION of the two pixel grids (mirrored / transposed / turned).
 
 Operations are the union of an explicit list and of *discovery by signature* (public callables of
 Geometry / BoundingBox / GeoBox and of the modules geom / geobox with two parameters annotated with the
@@ -21,6 +23,7 @@ from __future__ import annotations
 
 import collections.abc as cabc
 import copy
+import fractions
 import functools
 import inspect
 import itertools
@@ -204,7 +207,8 @@ def raw_shape(kind: str, pos: int) -> BaseGeometry:
     k = (kind, pos)
     if k in _RAW:
         return _RAW[k]
-    dx, dy = _SHIFT[pos]
+    # positions beyond the first four (long streams): further dyadic shifts, every shape still overlaps the first
+    dx, dy = _SHIFT[pos] if pos < len(_SHIFT) else ((pos % 8) * 0.25, (pos % 5) * 0.125)
 
     def P(*pts):
         return [(x + dx, y + dy) for x, y in pts]
@@ -292,19 +296,65 @@ GB_KINDS = {
     "subpix": (4, 5, 2, 0, 4),  # half a pixel off the lattice
     "coarse": (2, 3, 0, 0, 8),  # other pixel size
     "empty": (0, 3, 4, 0, 4),
+    "big": (8, 9, -8, -8, 4),  # contains base (2 more columns / rows on every side); only in the orientation slices
 }
+GB_BASE_KINDS = tuple(k for k in GB_KINDS if k != "big")
+# Orientation of the pixel grid over the SAME footprint, written "<kind>/<orientation>": n = north-up (default),
+# fx / fy / fxy = columns / rows / both walked the other way, tr = rows and columns swapped, r90 = quarter turn.
+# (pixel of the oriented grid) -> (pixel of the north-up grid) as (a, b, c, d, e, f) in units of (1, 1, nx, 1, 1, ny)
+GB_ORIENT = {
+    "n": (1, 0, 0, 0, 1, 0),
+    "fx": (-1, 0, 1, 0, 1, 0),
+    "fy": (1, 0, 0, 0, -1, 1),
+    "fxy": (-1, 0, 1, 0, -1, 1),
+    "tr": (0, 1, 0, 1, 0, 0),
+    "r90": (0, -1, 1, 1, 0, 0),
+}
+GB_FLIPS = ("n", "fx", "fy", "fxy")
+
+
+def gb_parts(kind):
+    base, _, o = kind.partition("/")
+    return GB_KINDS[base], (o or "n")
+
+
+def gb_shape(kind):
+    (ny, nx, *_), o = gb_parts(kind)
+    return (nx, ny) if o in ("tr", "r90") else (ny, nx)
+
+
+def _compose(m, p):
+    """2x3 affine m after 2x3 affine p (exact rationals)."""
+    a, b, c, d, e, f = m
+    pa, pb, pc, pd, pe, pf = p
+    return (a * pa + b * pd, a * pb + b * pe, a * pc + b * pf + c,
+            d * pa + e * pd, d * pb + e * pe, d * pc + e * pf + f)
+
+
+def _inverse(m):
+    a, b, c, d, e, f = m
+    det = a * e - b * d
+    ia, ib, id_, ie = e / det, -b / det, -d / det, a / det
+    return (ia, ib, -(ia * c + ib * f), id_, ie, -(id_ * c + ie * f))
+
+
+def gb_matrix(kind):
+    """pixel -> world of a GeoBox kind as six exact rationals (the lattice encoding is the single source)."""
+    (ny, nx, co, ro, s), o = gb_parts(kind)
+    F = fractions.Fraction
+    north_up = (F(s, 16), F(0), F(GB_X0) + F(co, 16), F(0), F(-s, 16), F(GB_Y0) - F(ro, 16))
+    a, b, c, d, e, f = GB_ORIENT[o]
+    return _compose(north_up, (F(a), F(b), F(c * nx), F(d), F(e), F(f * ny)))
 
 
 def gb_affine(kind) -> Affine:
-    _, _, co, ro, s = GB_KINDS[kind]
-    return Affine(s / 16, 0.0, GB_X0 + co / 16, 0.0, -s / 16, GB_Y0 - ro / 16)
+    return Affine(*map(float, gb_matrix(kind)))  # dyadic: exact in binary64
 
 
 def gb_operand(kind, pos, tag) -> GeoBox:  # pylint: disable=unused-argument
     k = ("x", kind, tag)
     if k not in _OBJ:
-        ny, nx = GB_KINDS[kind][:2]
-        _OBJ[k] = GeoBox((ny, nx), gb_affine(kind), tagv(tag))
+        _OBJ[k] = GeoBox(gb_shape(kind), gb_affine(kind), tagv(tag))
     return _OBJ[k]
 
 
@@ -667,11 +717,12 @@ def ref_bbox(op, boxes):
 
 
 def gb_expect_translation(ka, kb):
-    """Exact pixel translation a -> b from the lattice encoding, or None when pixel sizes differ."""
-    (_, _, ca, ra, sa), (_, _, cb, rb, sb) = GB_KINDS[ka], GB_KINDS[kb]
-    if sa != sb:
+    """Exact pixel translation a -> b from the lattice encoding (rational arithmetic), or None when the two pixel
+    grids are not related by a pure translation (other pixel size, other orientation)."""
+    a, b, c, d, e, f = _compose(_inverse(gb_matrix(kb)), gb_matrix(ka))
+    if (a, b, d, e) != (1, 0, 0, 1):
         return None
-    return ((ca - cb) / sb, (ra - rb) / sb)  # dyadic: exact in binary64
+    return (float(c), float(f))  # dyadic: exact in binary64
 
 
 def ref_geobox_exact(op, kinds):
@@ -683,7 +734,7 @@ def ref_geobox_exact(op, kinds):
         t = gb_expect_translation(*kinds)
         if t is None or t[0] != int(t[0]) or t[1] != int(t[1]):
             return ("exc", ValueError)
-        ny, nx = GB_KINDS[kinds[0]][:2]
+        ny, nx = gb_shape(kinds[0])
         return ("ok", ("bbox", (t[0], t[1], t[0] + nx, t[1] + ny)))
     return None
 
@@ -701,13 +752,23 @@ def ref_untagged(op, container, kinds):
         elif fam == "BoundingBox":
             ops_ = [BoundingBox(*BB_KINDS[kd], crs=None) for kd in kinds]
         else:
-            ops_ = [GeoBox(GB_KINDS[kd][:2], gb_affine(kd), None) for kd in kinds]
+            ops_ = [GeoBox(gb_shape(kd), gb_affine(kd), None) for kd in kinds]
         _UNTAGGED[k] = _obs(*capture_lib(lambda: invoke(OPS[op], ops_, container)))
     return _UNTAGGED[k]
 
 
+_REF: dict = {}
+
+
 def reference(op, fam, container, kinds):
-    """-> (reference observation, 'raw' | 'exact' | 'untagged')"""
+    """-> (reference observation, 'raw' | 'exact' | 'untagged'); a pure function of its arguments, kept per process"""
+    k = (op, container, tuple(kinds))
+    if k not in _REF:
+        _REF[k] = _reference(op, fam, container, kinds)
+    return _REF[k]
+
+
+def _reference(op, fam, container, kinds):
     ref = None
     if fam == "Geometry":
         ref = ref_geometry(op, [raw_shape(k, i) for i, k in enumerate(kinds)])
@@ -737,8 +798,9 @@ PIXEL_SPACE = ("GeoBox.overlap_roi", "geobox.pixel_translation", "geobox.boundin
 # =================================================================================================
 # the judge
 # =================================================================================================
-def judge(op, container, kinds, tags, operands=None):
-    """Run one (operation, operand kinds, operand tags) case and judge it."""
+def judge(op, container, kinds, tags, operands=None, labels=None):
+    """Run one (operation, operand kinds, operand tags) case and judge it.
+    labels: short spellings (what / ckey / tkey / kkey) for messages and finding keys of long streams."""
     spec = OPS[op]
     fam = spec["family"]
     if operands is None:
@@ -746,7 +808,9 @@ def judge(op, container, kinds, tags, operands=None):
     classes = [tag_class(t) for t in tags]
     same = len(set(classes)) == 1
     rel = relation(tags)
-    what = f"{op}({', '.join(f'{k}@{t}' for k, t in zip(kinds, tags))}){' [generator input]' if container == 'iter' else ''}"
+    labels = labels or {}
+    what = labels.get("what") or f"{op}({', '.join(f'{k}@{t}' for k, t in zip(kinds, tags))})"
+    what += " [generator input]" if container == "iter" else ""
 
     ref, ref_kind = reference(op, fam, container, kinds)
     ref_raises_valueerror = ref[0] == "exc" and issubclass(ref[1], ValueError)
@@ -756,7 +820,7 @@ def judge(op, container, kinds, tags, operands=None):
     r = R(outcome=f"{fam}:{rel}:{seen}", nontrivial=True)
 
     if not same:
-        ckey = "-".join(cls_label(c) for c in classes)
+        ckey = labels.get("ckey") or "-".join(cls_label(c) for c in classes)
         if st == "ok":
             r.fail(f"{op}:mismatch:{ckey}:no-error",
                    f"{what}: operands are in different CRSs but the call returned {show(got)} instead of raising ValueError")
@@ -779,8 +843,8 @@ def judge(op, container, kinds, tags, operands=None):
 
     # ---- one equivalence class: the result of the raw data, tagged with the class ---------------------
     c0 = classes[0]
-    tkey = "~".join(tags)
-    kkey = "-".join(kinds)
+    tkey = labels.get("tkey") or "~".join(tags)
+    kkey = labels.get("kkey") or "-".join(kinds)
     if ref_kind == "untagged" and rel == "both-none":
         r.nontrivial = False  # the untagged call compared with itself
     if st == "exc":
@@ -912,7 +976,7 @@ def _build(fam, kind, pos, value):
         return make_geometry(kind, pos, value)
     if fam == "BoundingBox":
         return BoundingBox(*BB_KINDS[kind], crs=value)
-    return GeoBox(GB_KINDS[kind][:2], gb_affine(kind), value)
+    return GeoBox(gb_shape(kind), gb_affine(kind), value)
 
 
 def stateful_operand(fam, kind, pos, tag):
@@ -993,6 +1057,160 @@ def gen_nary4(tier):
                         for tt in quads + two_odd:
                             yield (op, cont, kk, tt)
     return gen
+
+
+# ---- long streams: the NUMBER of operands, the odd one (incl. the CRS-less one) anywhere -----------------------
+# Every stream operation x every length of a contiguous range (so that any internal threshold - bulk / vectorised
+# paths, chunking - inside the range has streams on both sides of it) x every ordered (base, odd) tag pair x the odd
+# operand at EVERY position (short range) or first / second / middle / last but one / last (long range and
+# isolated lengths around powers of two), list and one-shot generator input.
+LONG_CYCLES = {"Geometry": (("polygon",), ("polygon", "polyhole", "multipolygon1", "line")),
+               "BoundingBox": (("A", "over", "inside"), ("A", "over", "apart", "inside", "flat")),
+               "GeoBox": (("base", "shift", "inside", "big"), ("base", "far", "upleft", "empty"))}
+
+
+L4_TAGS = ("none", "EPSG:4326", "wkt2:4326", "EPSG:3857")
+
+
+def long_plan(tier, fam):
+    """-> (lengths enumerated with the odd operand at EVERY position, tags used there,
+           lengths enumerated with five position classes, tags used there, number of kind cycles)"""
+    full = tier != "quick"
+    if fam == "GeoBox":  # a call costs ~0.1 ms per operand
+        every = range(5, 17) if full else range(5, 10)
+        classes = tuple(range(5, 67 if full else 35)) + ((127, 128, 129, 130, 257) if full else (64, 65, 128, 129))
+        return tuple(every), L4_TAGS, classes, (R_TAGS if full else L4_TAGS), (2 if full else 1)
+    every = range(5, 35) if full else range(5, 21)
+    if full:
+        classes = tuple(range(5, 131)) + (255, 256, 257, 258, 511, 512, 513, 514, 1000, 1001, 1023, 1024, 1025, 1026)
+    else:
+        classes = tuple(range(5, 41)) + (63, 64, 65, 66, 100, 127, 128, 129, 130, 255, 256, 257, 258)
+    # second BoundingBox cycle: the running intersection is empty from the third box on (an early exit would skip the rest)
+    return tuple(every), (R_TAGS if full else L4_TAGS), classes, R_TAGS, (2 if full or fam == "BoundingBox" else 1)
+
+
+def long_positions(n):
+    return sorted({0, 1, n // 2, n - 2, n - 1})
+
+
+def gen_long(tier):
+    def gen():
+        for fam in ("Geometry", "BoundingBox", "GeoBox"):
+            every, etags, classes, ctags, ncyc = long_plan(tier, fam)
+            plan = [(n, range(n), etags) for n in every] + [(n, long_positions(n), ctags) for n in classes]
+            for op in ops_of(fam, False):
+                for cont in containers(op):
+                    for ci in range(ncyc):
+                        seen = set()
+                        for n, where, tags in plan:
+                            for base in tags:
+                                for odd in tags:
+                                    for pos in (where if base != odd else (0,)):
+                                        k = (n, base, odd, pos)
+                                        if k not in seen:
+                                            seen.add(k)
+                                            yield (op, cont, ci, n, base, odd, pos)
+    return gen
+
+
+def _runs(ns):
+    """[5, 6, 7, 9] -> '5..7, 9'"""
+    out, ns = [], sorted(ns)
+    for n in ns:
+        if out and out[-1][1] == n - 1:
+            out[-1][1] = n
+        else:
+            out.append([n, n])
+    return ", ".join(str(a) if a == b else f"{a}..{b}" for a, b in out)
+
+
+def _plan_bounds(tier, fam):
+    every, etags, classes, ctags, ncyc = long_plan(tier, fam)
+    return {"every position": {"lengths": _runs(every), "tags": list(etags)},
+            "position classes": {"lengths": _runs(classes), "tags": list(ctags)}, "kind cycles used": ncyc}
+
+
+def _where(pos, n):
+    return {0: "first", 1: "second", n - 1: "last", n - 2: "last-but-one"}.get(pos, "inner")
+
+
+def run_long(case):
+    op, cont, ci, n, base, odd, pos = case
+    if op not in OPS:
+        return R(outcome="operation-absent-from-this-tree", nontrivial=False)
+    fam = OPS[op]["family"]
+    cyc = LONG_CYCLES[fam][ci]
+    kinds = tuple(cyc[i % len(cyc)] for i in range(n))
+    tags = tuple(odd if i == pos else base for i in range(n))
+    w = _where(pos, n)
+    labels = dict(
+        what=f"{op}({n} operands, kinds cycling through {'/'.join(cyc)}: all @{base} except operand #{pos} @{odd})",
+        ckey=f"{n}-operands:{cls_label(tag_class(base))}-with-{w}-{cls_label(tag_class(odd))}",
+        tkey=f"{n}-operands:{base}~{w}:{odd}", kkey=f"{n}-operands:{'-'.join(cyc)}")
+    r = judge(op, cont, kinds, tags, labels=labels)
+    r.outcome = (f"long[{'<=8' if n <= 8 else '<=32' if n <= 32 else '<=128' if n <= 128 else '>128'},"
+                 f"{w if w in ('first', 'last') else 'inner'}]:{r.outcome}")
+    return r
+
+
+# ---- GeoBox operand ORIENTATION: the other grid mirrored / transposed / turned relative to self ---------------
+# The property does not depend on the geometric relation of the two grids: a CRS mismatch must raise whatever it
+# is (where the same-CRS call refuses the pair for grid reasons any ValueError is accepted: 'ambiguous').
+def gb_orient_alphabets(tier):
+    full = tier != "quick"
+    self_kinds = tuple(GB_KINDS) if full else ("base", "inside", "empty")
+    self_or = tuple(GB_ORIENT) if full else ("n", "fy", "fxy")
+    return self_kinds, self_or, tuple(GB_KINDS), tuple(GB_ORIENT)
+
+
+def gen_gb_orient(tier):
+    def gen():
+        self_kinds, self_or, other_kinds, other_or = gb_orient_alphabets(tier)
+        pairs = [(a, b) for a in R_TAGS for b in R_TAGS]
+        for op in ops_of("GeoBox", True):
+            for ka in self_kinds:
+                for oa in self_or:
+                    for kb in other_kinds:
+                        for ob in other_or:
+                            for tt in pairs:
+                                yield (op, "list", (f"{ka}/{oa}", f"{kb}/{ob}"), tt)
+    return gen
+
+
+GBO_TRIPLES = (("base", "shift", "inside"), ("big", "base", "far"))
+
+
+def gen_gb_orient_nary(tier):
+    def gen():
+        full = tier != "quick"
+        self_kinds = tuple(GB_KINDS)
+        ors = tuple(GB_ORIENT)
+        pairs = [(a, b) for a in R_TAGS for b in R_TAGS]
+        triples = tag_triples(R_TAGS)
+        for op in ops_of("GeoBox", False):
+            for cont in containers(op):
+                for ka in (self_kinds if full else ()):  # quick: lists of 2 are reached through GeoBox.__and__ / __or__
+                    for kb in GB_KINDS:
+                        for oa, ob in itertools.product(ors, repeat=2):
+                            for tt in pairs:
+                                yield (op, cont, (f"{ka}/{oa}", f"{kb}/{ob}"), tt)
+                for kk in GBO_TRIPLES:
+                    for oo in itertools.product(GB_FLIPS, repeat=3):
+                        for tt in triples:
+                            yield (op, cont, tuple(f"{k}/{o}" for k, o in zip(kk, oo)), tt)
+    return gen
+
+
+def run_gb_orient(case):
+    op, cont, kinds, tags = case
+    if op not in OPS:
+        return R(outcome="operation-absent-from-this-tree", nontrivial=False)
+    r = judge(op, cont, kinds, tags)
+    ors = [k.partition("/")[2] for k in kinds]
+    r.outcome = f"orient[{'same' if len(set(ors)) == 1 else 'mixed'}]:{r.outcome}"
+    for f in r.fails:
+        f.key += ":orientation-" + "-".join(ors)
+    return r
 
 
 # ---- histories: an earlier call with the same coordinates, lazy properties read first ---------------------------
@@ -1400,7 +1618,7 @@ def run_fresh(case):
         elif fam == "BoundingBox":
             built[i] = BoundingBox(*BB_KINDS[kinds[i]], crs=v)
         else:
-            built[i] = GeoBox(GB_KINDS[kinds[i]][:2], gb_affine(kinds[i]), v)
+            built[i] = GeoBox(gb_shape(kinds[i]), gb_affine(kinds[i]), v)
     r = judge(op, "list", kinds, (ta, tb), operands=[built[0], built[1]])
     r.outcome = "fresh:" + r.outcome
     for f in r.fails:
@@ -1425,10 +1643,10 @@ def slices(tier):
                  "BoundingBox operators x box pairs x tag pairs", setup=reset),
         e1.Slice("bbox-nary", gen_nary("BoundingBox", tuple(BB_KINDS), k3b), run_case,
                  "bbox_union / bbox_intersection on streams of 2 and 3 boxes, list and generator input", setup=reset),
-        e1.Slice("geobox-binary", gen_binary("GeoBox", tuple(GB_KINDS)), run_case,
+        e1.Slice("geobox-binary", gen_binary("GeoBox", GB_BASE_KINDS), run_case,
                  "binary GeoBox operations x GeoBox kind pairs (aligned, shifted, disjoint, sub-pixel, other pixel size, "
                  "empty) x tag pairs", setup=reset),
-        e1.Slice("geobox-nary", gen_nary("GeoBox", tuple(GB_KINDS), k3x), run_case,
+        e1.Slice("geobox-nary", gen_nary("GeoBox", GB_BASE_KINDS, k3x), run_case,
                  "geobox_union/intersection_conservative on lists of 2 and 3 GeoBoxes", setup=reset),
         e1.Slice("non-epsg", gen_nonepsg, run_nonepsg,
                  "every operation x a few kind tuples x all ordered pairs / odd-one-out triples of tags incl. two custom "
@@ -1440,6 +1658,18 @@ def slices(tier):
                  "reduced tag alphabet, thorough: all tags", setup=reset),
         e1.Slice("nary4", gen_nary4(tier), run_case,
                  "collection operations on streams of 4: odd tag (incl. the CRS-less one) at each position, and two-odd patterns",
+                 setup=reset),
+        e1.Slice("long-streams", gen_long(tier), run_long,
+                 "collection operations on streams of 5 and more operands: every length of a contiguous range plus lengths "
+                 "around powers of two, the odd tag (incl. the CRS-less one) at every position (short range) or first / "
+                 "second / middle / last but one / last, all ordered reduced tag pairs, list and generator input",
+                 setup=reset),
+        e1.Slice("geobox-orientation", gen_gb_orient(tier), run_gb_orient,
+                 "binary GeoBox operations x (self kind, orientation) x (other kind, orientation: as is, mirrored in x / y / "
+                 "both, transposed, quarter turn; over the same footprint) x all ordered reduced tag pairs", setup=reset),
+        e1.Slice("geobox-orientation-nary", gen_gb_orient_nary(tier), run_gb_orient,
+                 "geobox_union/intersection_conservative on lists of 3 (mirrored orientations^3 x odd-one-out tag triples) and, "
+                 "thorough, of 2 (kinds x orientations x tag pairs; quick reaches these through GeoBox.__and__/__or__)",
                  setup=reset),
         e1.Slice("warm", gen_warm, run_warm,
                  "every operation after an earlier call on operands with the same coordinates/affines (accepted or refused), "
@@ -1475,6 +1705,16 @@ def main(ctx):
         "stale_id_wkt": "WKT2 of EPSG:32633 with the central meridian edited 15 -> 16.5 deg, trailing ID[\"EPSG\",32633] kept "
                         "(class 'stale32633': pyproj to_epsg() is None and it is != EPSG:32633)",
         "geometry_kinds2": list(GEOM_KINDS2),
+        "long_streams": {
+            "plan (quick)": {f: _plan_bounds("quick", f) for f in LONG_CYCLES},
+            "plan (thorough)": {f: _plan_bounds("thorough", f) for f in LONG_CYCLES},
+            "positions": "'every': the odd operand at each of the n positions; 'classes': first / second / middle / last but one / last",
+            "kind cycles": {f: [list(c) for c in v] for f, v in LONG_CYCLES.items()},
+            "tag tuples": "one base tag everywhere and one odd tag at the position; all ordered (base, odd) pairs of the stated tags",
+        },
+        "geobox_orientations": {"orientations": list(GB_ORIENT), "self kinds x orientations (quick)":
+                                [list(x) for x in gb_orient_alphabets("quick")[:2]],
+                                "other": "all GeoBox kinds x all orientations", "lists of 3": [list(t) for t in GBO_TRIPLES]},
         "nary_length_4": "base tag three times + odd one at each position (all tags); patterns a,b,a,b and a,a,b,b (reduced tags)",
         "warm": "earlier call on operands with the same coordinates under each reduced tag pair, then each reduced tag pair; "
                 "unchanged operands are the same instances; lazy-read variant after 3 warm pairs",
@@ -1489,7 +1729,7 @@ def main(ctx):
         "geometry_kinds": list(GEOM_KINDS),
         "bbox_kinds": {k: list(v) for k, v in BB_KINDS.items()},
         "geobox_kinds (ny,nx,col/16,row/16,pixel/16)": {k: list(v) for k, v in GB_KINDS.items()},
-        "nary_lengths": "2 (all ordered tag pairs) and 3 (base tag twice, odd one at each position)",
+        "nary_lengths": "2 (all ordered tag pairs), 3 and 4 (base tag, odd one at each position), 5 and more: see long_streams",
         "operations_explicit": sorted(EXPLICIT),
         "operations_discovered_by_signature": sorted(DISCOVERED),
         "discovered_not_in_explicit_list": ONLY_DISCOVERED,
